@@ -434,7 +434,40 @@ func TestDrive_C02(t *testing.T) {
 func TestDrive_C10(t *testing.T) {
 	pf := execProfile{name: "C10", kinds: []string{"Retry", "Breaker", "Limiter", "Bulkhead", "Timeout", "Fallback", "Cache"}, hedgePct: 20, maxDepth: 4, mustHave: "Fallback", extPct: 10, coopPct: 40, maxReqs: 3}
 	driveExec(t, "C10", pf, 450, 15000,
-		"stacks of depth 1-5 containing at least one fallback (WithResult/WithError/func echoing LastResult/func wrapping LastError) with random handle conditions, around and inside retry, breaker, rate limiter, bulkhead, timeout and cache policies so that the inner outcome ranges over plain results, handled and unhandled errors, ExceededError, ErrOpen, ErrFull, rate-limit and timeout errors. Non-trivial = some layer changed the outcome. "+execRule, nil)
+		"stacks of depth 1-5 containing at least one fallback (WithResult/WithError/func echoing LastResult/func wrapping LastError) with random handle conditions, around and inside retry, breaker, rate limiter, bulkhead, timeout and cache policies so that the inner outcome ranges over plain results, handled and unhandled errors, ExceededError, ErrOpen, ErrFull, rate-limit and timeout errors; plus executions cancelled (context, deadline, async Cancel) while the function runs and returns a result the fallback handles without an error. Non-trivial = some layer changed the outcome. "+execRule,
+		func(w *CaseWriter, rng *Rng, add func(InstD, []ReqD, string)) {
+			n := 30
+			if envTier() == "thorough" {
+				n = 1000
+			}
+			cancelledHandledResult(rng, n, false, add)
+		})
+}
+
+// the execution is cancelled while the function -- which ignores the cancellation -- runs; it then returns a plain result
+// that the fallback handles (HandleResult / HandleIf) without any error: the fallback must not be applied
+func cancelledHandledResult(rng *Rng, n int, withRetry bool, add func(InstD, []ReqD, string)) {
+	for i := 0; i < n; i++ {
+		v := Pick(rng, []int64{0, 1, 7})
+		h := CallD{K: "Result", R: v}
+		if rng.Chance(30) {
+			h = CallD{K: "If", P: &PredD{K: "ResGe", Z: v}}
+		}
+		stack := []PolD{{K: "Fallback", Handle: []CallD{h}, FBKind: Pick(rng, []string{"Echo", "WrapErr"}), FBR: int64(1 + rng.Intn(3))}}
+		if withRetry || rng.Chance(40) {
+			stack = append(stack, PolD{K: "Retry", MaxRetries: int64(rng.Intn(3)), Delay: genDelay(rng)})
+		}
+		dur := int64(2+rng.Intn(4)) * 1024
+		rq := ReqD{Stack: stack, CtxKey: -1, Entry: Pick(rng, append(append([]string{}, execEntries...), plainEntries...)),
+			Script: []FnStepD{{Out: OutD{R: v}, Dur: dur}}, ExtT: 1 + rng.I64n(dur-1), ExtKind: Pick(rng, []string{"Cancel", "Deadline"})}
+		if strings.HasSuffix(rq.Entry, "Async") && rng.Chance(50) {
+			rq.ExtKind = "AsyncCancel"
+		}
+		if strings.HasPrefix(rq.Entry, "Run") {
+			continue // Run* entry points discard the result: nothing for a result condition to handle
+		}
+		add(InstD{}, []ReqD{rq}, "cancelled-handled-result")
+	}
 }
 
 // verdict plumbing: an inner policy classifies a plain non-error result as a failure and hands it on (retry with
@@ -645,8 +678,9 @@ func TestDrive_C08(t *testing.T) {
 			if envTier() == "thorough" {
 				n = 4000
 			}
+			cancelledHandledResult(rng, n/5, true, add)
 			// a waiting policy OUTSIDE the retry policy, cancelled in the middle of its wait
-			for i := 0; i < n/3; i++ {
+			for i := 0; i < n/2; i++ {
 				g := &instGen{}
 				var outer PolD
 				var waitFor int64
@@ -662,7 +696,7 @@ func TestDrive_C08(t *testing.T) {
 				if rng.Chance(40) {
 					stack = append([]PolD{genPolicy(rng, "Breaker", 0, g)}, stack...)
 				}
-				rq := ReqD{Stack: stack, CtxKey: -1, Entry: Pick(rng, append(append([]string{}, execEntries...), plainEntries...)),
+				rq := ReqD{Stack: stack, CtxKey: -1, Entry: Pick(rng, append(append([]string{"GetAsync", "RunAsync", "GetWithExecutionAsync", "RunWithExecutionAsync"}, execEntries...), plainEntries...)),
 					Script: []FnStepD{{Out: genOutcome(rng), Dur: genDur(rng)}, {Out: OutD{R: 1}, Dur: 1024}},
 					ExtT: 1 + rng.I64n(waitFor-1), ExtKind: Pick(rng, []string{"Cancel", "Deadline"})}
 				if strings.HasSuffix(rq.Entry, "Async") && rng.Chance(60) {
